@@ -15,7 +15,9 @@ SPEC = {
                    "of copy ranges span 300-800 days. 20-30% of merge/chart/copy cases and half the seq cases put unlistable "
                    "stray directories (names that are not valid UTF-8, sorting before and after the dates) into the bucket. Request context: 30% of the /chart/ requests of the chart and seq cases run "
                    "under a request context that is cancelled, or past its deadline, before the request or once k objects have been "
-                   "opened for reading (what middleware.Timeout and a client disconnect do). Bucket layout: each bucket directory (upload, merged, "
+                   "opened for reading (what middleware.Timeout and a client disconnect do). 18% of the live-context /chart/ requests are hit by a READ FAULT: the reader "
+                   "of one merged object of the range (through the counting bucket wrapper) delivers k records, one short read per "
+                   "record, and then fails with `connection reset by peer`. Bucket layout: each bucket directory (upload, merged, "
                    "chart, the copy source) is in 22% of the environments a symbolic link (absolute or relative target) to a real "
                    "directory elsewhere, the local storage directory itself in 10%; in 30% of the later seq rounds a bucket "
                    "directory is moved away and replaced by a link to it between two requests. What "
@@ -78,6 +80,7 @@ SPEC = {
         "encoding/json: an encoded report holds no raw newline, is not empty, and decodes to the same report (premises of C13_merge_one_line_per_object / C13_read_all; sampled by the merge cases)",
         "semver.Compare is a total preorder (then compareSemver is a strict total order: C13_compare_semver_order); version.Compare is a strict total order on the normalised go versions of the configuration (checked per case on the rank tables)",
         "sort.Slice returns a permutation of its input which is sorted whenever less is a strict total order on the distinct keys; ranging over a Go map visits every key exactly once in some order",
+        "read faults: injected through the bucket wrapper on a merged object (handle_chart_fault: the day reads as an error, fix 0ab09db); faults on upload objects during /merge/ and on writes are not injected",
         "request context: the file-system store ignores it (handle_chart_ctx = handle_chart); the GCS store, whose readers fail once the context is done, is not exercised",
         "descriptors: an open upload reader costs one descriptor; merge_fd models NewReader failing when none is free (EMFILE); the budget of the counting bucket applies to upload readers only",
         "storage: an object write (NewWriter, Write, Close) replaces the object (b_put); FSBucket is exercised against that model incl. rewrites with shorter content; the GCS bucket is not; the listing order of Objects(prefix) is a parameter (observed per merge)",
